@@ -483,4 +483,170 @@ judge_seqb(int mode, int zi, int ti, int k, int replay)
 	return bad;
 }
 
+/* ---- ZEP: %s / @N under --zone and --from-zone ----
+ * seconds since the epoch name an instant; they must not depend on the zone the civil
+ * text is given or printed in */
+static int
+zep_run(char *out, size_t osz, const char *const av[])
+{
+	char exe[512];
+	int pfd[2], st;
+	pid_t pid;
+	ssize_t nr;
+	size_t tot = 0;
+
+	snprintf(exe, sizeof(exe), "%s/src/%s", ex.tree ? ex.tree : ".", av[0]);
+	out[0] = '\0';
+	if (pipe(pfd) < 0) {
+		return -1;
+	}
+	fflush(stdout);
+	if ((pid = fork()) < 0) {
+		return -1;
+	}
+	if (pid == 0) {
+		int nul = open("/dev/null", O_RDWR);
+		struct itimerval z = {{0, 0}, {0, 0}};
+		setitimer(ITIMER_REAL, &z, NULL);
+		signal(SIGALRM, SIG_DFL);
+		dup2(nul, 0), dup2(pfd[1], 1), dup2(nul, 2);
+		close(pfd[0]), close(pfd[1]);
+		alarm(10);
+		execv(exe, (char *const*)av);
+		_exit(127);
+	}
+	close(pfd[1]);
+	while (tot + 1 < osz && ((nr = read(pfd[0], out + tot, osz - 1 - tot)) > 0 || (nr < 0 && errno == EINTR))) {
+		if (nr > 0) {
+			tot += (size_t)nr;
+		}
+	}
+	close(pfd[0]);
+	out[tot] = '\0';
+	out[strcspn(out, "\n")] = '\0';
+	while (waitpid(pid, &st, 0) < 0 && errno == EINTR) {
+		;
+	}
+	return WIFEXITED(st) ? WEXITSTATUS(st) : 1000 + WTERMSIG(st);
+}
+
+static int
+judge_zep(int zi, int rd, int sod, int binary, int replay)
+{
+	static struct dt_dt_s r;
+	struct dt_dt_s v;
+	zif_t z = seq_zone(zi);
+	int64_t inst = (int64_t)rc_get(rd)->unixd * 86400 + sod, gi;
+	char text[64], num[32], atn[32], got[96] = "", key[200], cas[64], cmd[256];
+	char *fmts[1] = {(char*)"%s"};
+	int rc, s60, bad = 0;
+	long long g;
+	char *ep;
+	EX_CTR(c_eval, "evaluations");
+	EX_CTR(c_trans, "transitions");
+	EX_CTR(c_bind, "cli_binding_replays");
+	EX_CTR(c_skipz, "skipped:zone file not available or the zone conversion of the start value does not return a date-time (C12/C19)");
+
+	if (z == NULL || !held_value(H_YMD, rd, sod, &v, text, sizeof(text))) {
+		++*c_skipz;
+		return 0;
+	}
+	snprintf(cas, sizeof(cas), "ZEP %d %d %d %d", zi, rd, sod, binary);
+	snprintf(num, sizeof(num), "%lld", (long long)inst);
+	snprintf(atn, sizeof(atn), "@%lld", (long long)inst);
+	/* (a) civil UTC in, %s out under --zone */
+	if (binary) {
+		const char *av[] = {"dconv", "-f", "%s", "--zone", seq_zones[zi], text, NULL};
+		rc = zep_run(got, sizeof(got), av);
+		++*c_bind;
+	} else {
+		EX_GUARD_BEGIN(rc);
+		r = dtz_enrichz(v, z);
+		dt_strfdt(got, sizeof(got), "%s", r);
+		EX_GUARD_END;
+		*c_eval += 2;
+	}
+	++*c_trans;
+	ex_outcome(ex_hash(got, strlen(got)));
+	g = strtoll(got, &ep, 10);
+	if (replay) {
+		printf("  dconv -f %%s --zone %s %s -> '%s'; the instant is %lld\n", seq_zones[zi], text, got, (long long)inst);
+	}
+	{
+		/* the zone slot of a value holds the offset in quarter hours (ZDIFF_RES); local mean
+		 * times before a zone's first transition are no multiples of that: zone business (C12) */
+		static struct dt_dt_s w;
+		char loc[96] = "";
+		int64_t li = 0;
+		int ls = 0, rc2;
+		EX_GUARD_BEGIN(rc2);
+		w = dtz_enrichz(v, z);
+		dt_strfdt(loc, sizeof(loc), "%FT%T", w);
+		EX_GUARD_END;
+		if (rc2 || !dec_datetime(H_YMD, loc, &li, &ls) || (li - inst) % 900) {
+			EX_CTR(c_skipq, "skipped:zone offset at that instant is not a multiple of 15 minutes (local mean time; the value's zone slot cannot hold it)");
+			++*c_skipq;
+			return 0;
+		}
+	}
+	if (rc || !got[0] || *ep || g != inst) {
+		snprintf(key, sizeof(key), "%sepoch-out under --zone: %s", binary ? "binary " : "",
+			 rc ? "abnormal end" : !got[0] || *ep ? "not a number" : g > inst ? "larger than the instant's" : "smaller than the instant's");
+		snprintf(cmd, sizeof(cmd), "dconv -f %%s --zone %s %s", seq_zones[zi], text);
+		ex_viol(key, (double)inst, cas, cmd, "dconv -f %%s --zone %s %s prints '%s'; the instant %sZ is %lld seconds after the epoch in every zone",
+			seq_zones[zi], text, got, text, (long long)inst);
+		bad++;
+	}
+	/* (b) %s in under --from-zone, %s out: the identity; (c) @N in under --from-zone: the instant of N.
+	 * Reading: the repository pins the other meaning -- an epoch count read under --from-zone is the
+	 * zone's wall clock counted in seconds (test/dtconv.055/056: `dconv -z Australia/Sydney
+	 * --from-zone=Australia/Sydney @1408226870' prints 22:07:50, the UTC reading of that count) --
+	 * so these two are judged only when built with -DC11_JUDGE_EPOCH_FROM_ZONE */
+#if !defined C11_JUDGE_EPOCH_FROM_ZONE
+	{
+		EX_CTR(c_skipf, "skipped:epoch count read under --from-zone (the repository's tests pin it as local wall-clock seconds)");
+		*c_skipf += 2;
+		return bad;
+	}
+#endif
+	for (int k = 0; k < 2; k++) {
+		if (inst <= 0) {
+			break;	/* counts of 0 and below as command-line words are C09's business (and 0 is rejected, see notes) */
+		}
+		got[0] = '\0';
+		if (binary) {
+			const char *av1[] = {"dconv", "-i", "%s", "--from-zone", seq_zones[zi], "-f", "%s", num, NULL};
+			const char *av2[] = {"dconv", "--from-zone", seq_zones[zi], "-f", "%s", atn, NULL};
+			rc = zep_run(got, sizeof(got), k ? av2 : av1);
+			++*c_bind;
+		} else {
+			EX_GUARD_BEGIN(rc);
+			r = dt_io_strpdt(k ? atn : num, fmts, k ? 0U : 1U, z);
+			/* dt_io_write without --zone */
+			r.zdiff = 0U;
+			r.neg = 0U;
+			dt_strfdt(got, sizeof(got), "%s", r);
+			EX_GUARD_END;
+			*c_eval += 2;
+		}
+		++*c_trans;
+		ex_outcome(ex_hash(got, strlen(got)));
+		g = strtoll(got, &ep, 10);
+		if (replay) {
+			printf("  dconv %s--from-zone %s -f %%s %s -> '%s'\n", k ? "" : "-i %s ", seq_zones[zi], k ? atn : num, got);
+		}
+		if (rc || !got[0] || *ep || g != inst) {
+			snprintf(key, sizeof(key), "%sepoch-in src=%s under --from-zone, %%s out: %s", binary ? "binary " : "", k ? "@N" : "%s",
+				 rc ? "abnormal end" : !got[0] || *ep ? "not a number" : g > inst ? "larger than the input" : "smaller than the input");
+			snprintf(cmd, sizeof(cmd), "dconv %s--from-zone %s -f %%s %s", k ? "" : "-i %s ", seq_zones[zi], k ? atn : num);
+			ex_viol(key, (double)inst, cas, cmd, "%s prints '%s'; seconds since the epoch name the same instant in every zone, expected %lld",
+				cmd, got, (long long)inst);
+			bad++;
+		}
+	}
+	(void)gi;
+	(void)s60;
+	return bad;
+}
+
 #endif
